@@ -4,6 +4,8 @@ mod c01;
 mod c02;
 mod c03;
 mod c04;
+mod c09;
+mod c10;
 mod ctx;
 mod docs;
 mod obs;
@@ -27,6 +29,8 @@ fn registry(id: &str) -> Option<Box<dyn Check>> {
         "C02" => Some(Box::new(c02::C02)),
         "C03" => Some(Box::new(c03::C03)),
         "C04" => Some(Box::new(c04::C04::new())),
+        "C09" => Some(Box::new(c09::C09::new())),
+        "C10" => Some(Box::new(c10::C10)),
         _ => None,
     }
 }
